@@ -570,7 +570,25 @@ func (v *PolicyVerifier) VerifyRelativeForRef(ctx context.Context, firstEntry, l
 
 			switch entry := entry.(type) {
 			case *rsl.PropagationEntry:
-				slog.Debug(fmt.Sprintf("Entry '%s' is propagation entry, proceeding...", entry.GetID().String()))
+				if strings.HasPrefix(entry.GetRefName(), "refs/gittuf/") {
+					// Propagation into gittuf's own namespaces (e.g., a
+					// controller's metadata into the policy ref) is validated
+					// when the policy state is loaded
+					slog.Debug(fmt.Sprintf("Entry '%s' is propagation entry for gittuf namespace, proceeding...", entry.GetID().String()))
+					continue
+				}
+
+				// A propagation entry updates the reference like any other
+				// entry, so whoever recorded it must be authorized for the
+				// reference by the policy in force. Propagation entries
+				// cannot be revoked, so there is no recovery path here.
+				slog.Debug(fmt.Sprintf("Entry '%s' is propagation entry, verifying changes...", entry.GetID().String()))
+				if currentPolicy == nil {
+					return ErrPolicyNotFound
+				}
+				if err := verifyEntry(ctx, v.repo, currentPolicy, currentAttestations, &rsl.ReferenceEntry{ID: entry.ID, RefName: entry.RefName, TargetID: entry.TargetID, Number: entry.Number}); err != nil {
+					return err
+				}
 				continue
 
 			case *rsl.ReferenceEntry:
@@ -1329,32 +1347,32 @@ func verifyGitObjectAndAttestations(ctx context.Context, policy *State, target s
 					return "", false, err
 				}
 
-				currentEntryRef, isReferenceEntry := currentEntry.(*rsl.ReferenceEntry)
-				if !isReferenceEntry {
-					slog.Debug(fmt.Sprintf("Expected '%s' to be RSL reference entry, aborting verification of block force pushes global rule...", gitID.String()))
+				currentEntryRef, isReferenceUpdaterEntry := currentEntry.(rsl.ReferenceUpdaterEntry)
+				if !isReferenceUpdaterEntry {
+					slog.Debug(fmt.Sprintf("Expected '%s' to be RSL reference or propagation entry, aborting verification of block force pushes global rule...", gitID.String()))
 					return "", false, rsl.ErrInvalidRSLEntry
 				}
 
-				previousEntryRef, _, err := rsl.GetLatestReferenceUpdaterEntry(policy.repository, rsl.BeforeEntryID(currentEntry.GetID()), rsl.ForReference(currentEntryRef.RefName), rsl.IsUnskipped())
+				previousEntryRef, _, err := rsl.GetLatestReferenceUpdaterEntry(policy.repository, rsl.BeforeEntryID(currentEntry.GetID()), rsl.ForReference(currentEntryRef.GetRefName()), rsl.IsUnskipped())
 				if err != nil {
 					if errors.Is(err, rsl.ErrRSLEntryNotFound) {
-						slog.Debug(fmt.Sprintf("Entry '%s' is the first one for reference '%s', cannot check if it's a force push", currentEntryRef.GetID().String(), currentEntryRef.RefName))
+						slog.Debug(fmt.Sprintf("Entry '%s' is the first one for reference '%s', cannot check if it's a force push", currentEntryRef.GetID().String(), currentEntryRef.GetRefName()))
 						break
 					}
 
 					return "", false, err
 				}
 
-				knows, err := policy.repository.KnowsCommit(currentEntryRef.TargetID, previousEntryRef.GetTargetID())
+				knows, err := policy.repository.KnowsCommit(currentEntryRef.GetTargetID(), previousEntryRef.GetTargetID())
 				if err != nil {
 					return "", false, err
 				}
 				if !knows {
-					slog.Debug(fmt.Sprintf("Current entry's commit '%s' is not a descendant of prior entry's commit '%s'", currentEntryRef.TargetID.String(), previousEntryRef.GetTargetID().String()))
+					slog.Debug(fmt.Sprintf("Current entry's commit '%s' is not a descendant of prior entry's commit '%s'", currentEntryRef.GetTargetID().String(), previousEntryRef.GetTargetID().String()))
 					return "", false, ErrVerifierConditionsUnmet
 				}
 
-				slog.Debug(fmt.Sprintf("Successfully verified global rule '%s' as '%s' is a descendant of '%s'", rule.GetName(), currentEntryRef.TargetID.String(), previousEntryRef.GetTargetID().String()))
+				slog.Debug(fmt.Sprintf("Successfully verified global rule '%s' as '%s' is a descendant of '%s'", rule.GetName(), currentEntryRef.GetTargetID().String(), previousEntryRef.GetTargetID().String()))
 
 			default:
 				slog.Debug("Unknown global rule type, aborting verification...")
